@@ -53,3 +53,27 @@ pub fn oracle_covers_equiv() {
     kani::cover!(!real && rx == 1 && ry == 2);
     kani::cover!(real && rx == 0 && ry == 29);
 }
+
+/// ∀ valid cell(1..28) c, ∀ k<4: spec_child(id, k) = serialize(child k) — the bit-level child rule
+/// agrees with the real codec (and hence, by c07_children_d1, with cell_to_children).
+#[kani::proof]
+#[kani::unwind(32)]
+#[kani::stub(alloc::fmt::format, fmt_stub)]
+pub fn oracle_child_equiv() {
+    warm();
+    let c = any_valid_cell_res(1, 28);
+    let id = ser(&c);
+    let k: u64 = kani::any();
+    kani::assume(k < 4);
+    let ch = a5::core::utils::A5Cell {
+        origin_id: c.origin_id,
+        segment: c.segment,
+        s: (c.s << 2) + k,
+        resolution: c.resolution + 1,
+    };
+    let want = ser(&ch);
+    assert!(spec_child(id, k) == want);
+    assert!(par(want, c.resolution) == id);
+    kani::cover!(c.resolution == 1);
+    kani::cover!(c.resolution == 28 && k == 3);
+}
